@@ -1,7 +1,9 @@
 (** Correspondence evaluator for C01: histories of results edited through the
-    API and written by the real benchfmt.Writer, and arbitrary texts sent
-    through the cmd/benchfilter loop; the writer's bytes are read back by the
-    real reader.  corr_ok: model edits = real edits, model reader = real reader
+    API and written by the real benchfmt.Writer, arbitrary texts sent
+    through the cmd/benchfilter loop, through the REAL cmd/benchfilter binary
+    (queries "*", key:value, .unit:literal; files or stdin) and through one
+    Reader reused by Reset into one Writer; the written bytes are read back by
+    the real reader.  corr_ok: model edits = real edits, model reader = real reader
     on the real bytes, and reading the MODEL writer's bytes gives the same
     observation as reading the real bytes (bytes themselves are not compared).
     prop_ok: the observation equals the expectation computed from the history. *)
@@ -52,12 +54,27 @@ Inductive hstep :=
 
 Definition fmt_table := list (b64 * bytes).
 
+(** the queries given to the real cmd/benchfilter binary *)
+Inductive query := QAll | QKey (k v : bytes) | QUnit (lit : bytes).
+
 Inductive case :=
 | KHist (orc : oracle) (fmt : fmt_table) (steps : list hstep) (out : bytes)
         (rb : list orec) (rberr : option Z)
 | KText (orc : oracle) (fmt : fmt_table) (fs : list (bytes * bytes)) (paths : list bytes)
         (r1 : list orec) (out : bytes) (rb : list orec) (rberr : option Z)
+| KBin (orc : oracle) (fmt : fmt_table) (fs : list (bytes * bytes)) (paths : list bytes) (stdin : bool)
+       (q : query) (r1 : list orec) (exit : Z) (out : bytes) (rb : list orec) (rberr : option Z)
+| KReset (orc : oracle) (fmt : fmt_table) (files : list (bytes * list (bytes * bytes) * bytes))
+         (r1 : list orec) (out : bytes) (rb : list orec) (rberr : option Z)
 | KPanic.
+
+Definition as_query (s : sx) : option query :=
+  match s with
+  | SL [SZ 0] => Some QAll
+  | SL [SZ 1; SB k; SB v] => Some (QKey k v)
+  | SL [SZ 2; SB l] => Some (QUnit l)
+  | _ => None
+  end.
 
 Definition as_edit (s : sx) : option cedit :=
   match s with
@@ -92,6 +109,17 @@ Definition decode (s : sx) : option case :=
       do r1 <- as_list as_orec r1; do rb <- as_list as_orec rb; do rberr <- as_opt as_z rberr;
       Some (KText orc fmt fs paths r1 out rb rberr)
   | SL [SZ 3] => Some KPanic
+  | SL [SZ 4; orc; fmt; fs; paths; stdin; q; r1; SZ exit; SB out; rb; rberr] =>
+      do orc <- as_oracle orc; do fmt <- as_fmt fmt;
+      do fs <- as_list (as_pair as_b as_b) fs; do paths <- as_list as_b paths;
+      do stdin <- as_bool stdin; do q <- as_query q;
+      do r1 <- as_list as_orec r1; do rb <- as_list as_orec rb; do rberr <- as_opt as_z rberr;
+      Some (KBin orc fmt fs paths stdin q r1 exit out rb rberr)
+  | SL [SZ 5; orc; fmt; files; r1; SB out; rb; rberr] =>
+      do orc <- as_oracle orc; do fmt <- as_fmt fmt;
+      do files <- as_list (as_triple as_b (as_list (as_pair as_b as_b)) as_b) files;
+      do r1 <- as_list as_orec r1; do rb <- as_list as_orec rb; do rberr <- as_opt as_z rberr;
+      Some (KReset orc fmt files r1 out rb rberr)
   | _ => None
   end.
 
@@ -160,7 +188,52 @@ Definition reader_agrees (out : bytes) (rb : list orec) (rberr : option Z) : boo
 Definition model_bytes_agree (bm : bytes) (rb : list orec) : bool :=
   let '(rs, e) := read_model bm in
   orc_complete orc bm && obs_eqb (map ob_of_record rs) (map ob_of_orec rb).
+
+(** one reader reused through Reset over successive inputs (name, labels, content) *)
+Fixpoint reset_run (st : rstate) (files : list (bytes * list (bytes * bytes) * bytes)) : list record :=
+  match files with
+  | [] => []
+  | (n, labels, c) :: files' =>
+      let '(rs, _, st1) := rf st n labels c in rs ++ reset_run st1 files'
+  end.
 End Run.
+
+(** ** the filter of cmd/benchfilter for the three query shapes.
+    Model side: on the model's results (the [.unit] clause is Units.unit_filter_apply). *)
+Definition keep_res (q : query) (r : result) : option result :=
+  match q with
+  | QAll => Some r
+  | QKey k v => if beq (extract_config (r_cfg r) k) v then Some r else None
+  | QUnit lit =>
+      let '(k, any) := unit_filter_apply (beq lit) (r_vals r) in
+      if any then Some (mkResult (r_cfg r) (r_name r) (r_iters r) k (r_file r) (r_line r)) else None
+  end.
+
+(** Specification side, on the observed records of the input: syntax errors
+    are dropped, unit metadata passes, a result passes a key filter iff its
+    configuration maps the key to the value (absent = empty), and a [.unit]
+    filter keeps exactly the measurements whose base unit or written unit is the
+    literal; a result with no measurement left is dropped. *)
+Definition oval_named (lit : bytes) (o : b64 * bytes * b64 * bytes) : bool :=
+  let '(_, u, _, ou) := o in beq lit u || (negb (is_nil ou) && beq lit ou).
+
+Definition keep_orec (q : query) (o : orec) : list orec :=
+  match o with
+  | OErr _ _ _ => []
+  | OUnit _ _ _ _ _ _ => [o]
+  | ORes f l name it vals cfgs =>
+      match q with
+      | QAll => [o]
+      | QKey k v => if beq (extract_config cfgs k) v then [o] else []
+      | QUnit lit => match filter (oval_named lit) vals with
+                     | [] => []
+                     | vs => [ORes f l name it vs cfgs]
+                     end
+      end
+  end.
+
+Definition stdin_name : bytes := bs "-".
+Definition stdin_label : bytes := bs "-#0".    (* files.go: the implicit stdin input is unlabelled and counted 0 times *)
 
 Definition is_err (o : orec) : bool := match o with OErr _ _ _ => true | _ => false end.
 
@@ -176,6 +249,26 @@ Definition corr_ok (c : case) : bool :=
       && list_eqb2 (rec_eqb cfg_list_eqb) rs r1
       && reader_agrees orc out rb rberr
       && model_bytes_agree orc (benchfilter_loop (fmt_of fmt) Some rs) rb
+  | KBin orc fmt fs paths stdin q r1 exit out rb rberr =>
+      let rs :=
+        if stdin then
+          match fs with
+          | (_, content) :: _ =>
+              fst (fst (read_file go_is_space go_is_lower go_is_upper (orc_atoi orc) (orc_pf orc)
+                          rs_empty stdin_name [(key_file, stdin_label)] content))
+          | [] => []
+          end
+        else fst (fst (files_run go_is_space go_is_lower go_is_upper (orc_atoi orc) (orc_pf orc) fs true paths)) in
+      forallb (fun pc => orc_complete orc (snd pc)) fs
+      && list_eqb2 (rec_eqb cfg_list_eqb) rs r1
+      && reader_agrees orc out rb rberr
+      && model_bytes_agree orc (benchfilter_loop (fmt_of fmt) (keep_res q) rs) rb
+  | KReset orc fmt files r1 out rb rberr =>
+      let rs := reset_run orc rs_empty files in
+      forallb (fun f => orc_complete orc (snd f)) files
+      && list_eqb2 (rec_eqb cfg_list_eqb) rs r1
+      && reader_agrees orc out rb rberr
+      && model_bytes_agree orc (benchfilter_loop (fmt_of fmt) Some rs) rb
   end.
 
 Definition prop_ok (c : case) : bool :=
@@ -186,6 +279,14 @@ Definition prop_ok (c : case) : bool :=
       && match rberr with None => true | Some _ => false end
       && obs_eqb (expect_hist [] steps) (map ob_of_orec rb)
   | KText orc fmt fs paths r1 out rb rberr =>
+      match rberr with None => true | Some _ => false end
+      && obs_eqb (map ob_of_orec (filter (fun o => negb (is_err o)) r1)) (map ob_of_orec rb)
+  | KBin orc fmt fs paths stdin q r1 exit out rb rberr =>
+      (* the command succeeds and its output reads back as exactly the filtered stream *)
+      Z.eqb exit 0
+      && match rberr with None => true | Some _ => false end
+      && obs_eqb (map ob_of_orec (flat_map (keep_orec q) r1)) (map ob_of_orec rb)
+  | KReset orc fmt files r1 out rb rberr =>
       match rberr with None => true | Some _ => false end
       && obs_eqb (map ob_of_orec (filter (fun o => negb (is_err o)) r1)) (map ob_of_orec rb)
   end.
